@@ -8,6 +8,7 @@ import (
 	"io"
 	"reflect"
 	"strconv"
+	"strings"
 
 	"github.com/alecthomas/participle/v2/lexer"
 )
@@ -55,6 +56,10 @@ func (l *vhStreamLexer) Next() (lexer.Token, error) {
 // EOF) and arbitrary one-byte text, followed by EOF.  Positions are concrete
 // and unique (Offset == index).
 func vhStream() []lexer.Token {
+	// MaxIterations is a documented, user-settable limit (default 1 000 000);
+	// a small value keeps a non-progressing repetition within the
+	// executor's instruction budget
+	MaxIterations = 64
 	n := vChoose("ntokens", vhMaxTokens+1)
 	toks := make([]lexer.Token, 0, n+1)
 	for i := 0; i < n; i++ {
@@ -91,18 +96,36 @@ func (c vhConfig) ciMap() map[lexer.TokenType]bool {
 	return m
 }
 
+// vhBuild returns a parser for G over the given token stream with lookahead
+// k.  The real Build runs once per worker (vMemo: its result is shared and
+// frozen); each path works on a shallow copy of the Parser value into which
+// the stream definition is put and to which the real UseLookahead option is
+// applied.
 func vhBuild[G any](cfg vhConfig, def *vhStreamDef, k int) *Parser[G] {
-	opts := []Option{Lexer(def), UseLookahead(k)}
-	if len(cfg.elide) > 0 {
-		opts = append(opts, Elide(cfg.elide...))
-	}
-	if len(cfg.ci) > 0 {
-		opts = append(opts, CaseInsensitive(cfg.ci...))
-	}
-	opts = append(opts, cfg.opts...)
-	p, err := Build[G](opts...)
-	vAssert(err == nil, "catalogue grammar must build")
-	return p
+	var g G
+	key := "build:" + reflect.TypeOf(&g).String() + ":" + strings.Join(cfg.elide, ",") + ":" + strings.Join(cfg.ci, ",")
+	base := vMemo(key, func() interface{} {
+		opts := []Option{Lexer(&vhStreamDef{})}
+		if len(cfg.elide) > 0 {
+			opts = append(opts, Elide(cfg.elide...))
+		}
+		if len(cfg.ci) > 0 {
+			opts = append(opts, CaseInsensitive(cfg.ci...))
+		}
+		opts = append(opts, cfg.opts...)
+		p, err := Build[G](opts...)
+		vAssert(err == nil, "catalogue grammar must build")
+		return p
+	}).(*Parser[G])
+	q := *base
+	q.lex = def
+	vAssert(UseLookahead(k)(&q.parserOptions) == nil, "UseLookahead failed")
+	return &q
+}
+
+// vhGrammar is vhGrammarOf, computed once per worker.
+func vhGrammar(t reflect.Type, unions map[reflect.Type][]reflect.Type) *rprod {
+	return vMemo("grammar:"+t.String(), func() interface{} { return vhGrammarOf(t, unions) }).(*rprod)
 }
 
 // vhC01 is the core differential check: accept/reject and the AST.
@@ -115,7 +138,7 @@ func vhC01[G any](cfg vhConfig) {
 	ast, err := p.ParseString("f", "", AllowTrailing(trailing))
 
 	var g G
-	root := vhGrammarOf(reflect.TypeOf(g), cfg.unions)
+	root := vhGrammar(reflect.TypeOf(g), cfg.unions)
 	rc := &refctx{T: toks, elide: cfg.elideMap(), k: k, sym: vhSymbols, ci: cfg.ciMap()}
 	accept, want, _ := rc.parse(root, trailing)
 	if rc.bug {
@@ -142,13 +165,19 @@ func vhC06[G any](cfg vhConfig) {
 	def := &vhStreamDef{toks: toks}
 	p := vhBuild[G](cfg, def, k)
 	ast, err := p.ParseString("f", "", AllowTrailing(trailing))
+	vhCheckOutcome(toks, ast != nil, err)
+}
+
+// vhCheckOutcome: a value with a nil error, or a well-formed located error
+// with a partial AST.
+func vhCheckOutcome(toks []lexer.Token, haveAST bool, err error) {
 	if err == nil {
 		vReach("ok")
-		vAssert(ast != nil, "C06: nil AST with nil error")
+		vAssert(haveAST, "C06: nil AST with nil error")
 		return
 	}
 	vReach("error")
-	vAssert(ast != nil, "C06: a parse failure must come with a non-nil partial AST")
+	vAssert(haveAST, "C06: a parse failure must come with a non-nil partial AST")
 	perr, ok := err.(Error)
 	vAssert(ok, "C06: error does not implement participle.Error")
 	pos := perr.Position()
@@ -202,7 +231,7 @@ func vhC13[G any](cfg vhConfig) {
 	a2, e2 := p2.ParseString("f", "", AllowTrailing(trailing))
 	vAssert(e2 == nil, "C13: parse succeeds with lookahead k but fails with more lookahead")
 	var g G
-	root := vhGrammarOf(reflect.TypeOf(g), cfg.unions)
+	root := vhGrammar(reflect.TypeOf(g), cfg.unions)
 	vhSameAST(vhActual(root, reflect.ValueOf(a1).Elem()), vhActual(root, reflect.ValueOf(a2).Elem()), "C13")
 }
 
@@ -214,7 +243,7 @@ func vhC10[G any](cfg vhConfig) {
 	trailing := vBool("allowTrailing")
 	elide := cfg.elideMap()
 	var g0 G
-	lits := vhUntypedLiterals(vhGrammarOf(reflect.TypeOf(g0), cfg.unions))
+	lits := vhUntypedLiterals(vhGrammar(reflect.TypeOf(g0), cfg.unions))
 	var filtered []lexer.Token
 	dropped := 0
 	for _, t := range toks {
@@ -243,7 +272,7 @@ func vhC10[G any](cfg vhConfig) {
 	}
 	vReach("accepted")
 	var g G
-	root := vhGrammarOf(reflect.TypeOf(g), cfg.unions)
+	root := vhGrammar(reflect.TypeOf(g), cfg.unions)
 	vhSameAST(vhActual(root, reflect.ValueOf(a1).Elem()), vhActual(root, reflect.ValueOf(a2).Elem()), "C10")
 }
 
@@ -292,7 +321,7 @@ func vhC11[G any](cfg vhConfig) {
 		return
 	}
 	var g G
-	root := vhGrammarOf(reflect.TypeOf(g), cfg.unions)
+	root := vhGrammar(reflect.TypeOf(g), cfg.unions)
 	rc := &refctx{T: toks, elide: cfg.elideMap(), k: k, sym: vhSymbols, ci: cfg.ciMap()}
 	accept, want, end := rc.parse(root, true)
 	if rc.bug || !accept {
